@@ -496,3 +496,21 @@ Example C03_ex_player_step_from_source :
     Some (Some (Some (1%nat, 20), 40, 33)); Some None ].
 Proof. vm_compute. reflexivity. Qed.
 (* ==== end of block (unit stepper) ==== *)
+
+(* ==== whole-emulator composition (EmuAllDefs) ==== *)
+(* C03 inside the composition of all models (EmuAllDefs.ovniemu_model, see the block of the same name in Properties_C12.v /
+   Properties_C13.v): whenever the composed emulator writes files, the raw events its core and writer ran on (`delivered`) are,
+   one for one and in order, the events ClkoffDefs.run_emu_table delivered for the streams of the directory - i.e. the output
+   of the player of this property after the offsets of clock-offsets.txt were applied (C03_* above: non-decreasing corrected
+   time, loss-free, ties by stream order) - each carrying the player's corrected clock o_sclock and attributed to the thread
+   (row) of the stream it came from.  The verdict VOk excludes the gate and backward-jump refusals. *)
+From OV Require Emu.EmuAllDefs Proofs.EmuAllProofs.
+Theorem C03_all_events_from_player : forall inp out, EmuAllDefs.ovniemu_model inp = EmuAllDefs.Files out ->
+  exists oevs enum revs, ClkoffDefs.run_emu_table (EmuAllDefs.in_clkoff inp) enum = ClkoffDefs.OOk (oevs, PlayerDefs.VOk) /\
+    EmuAllProofs.delivered inp out revs /\
+    Forall2 (fun (e : PlayerDefs.oev) r => EmuAllProofs.rev_time r = PlayerDefs.o_sclock e /\
+               exists s, nth_error (EmuAllDefs.sorted_streams inp) (PlayerDefs.o_id e) = Some s /\
+                         exists sys, EmuAllDefs.gindex_of sys s = Some (EmuAllProofs.rev_who r)) oevs revs.
+Proof. exact EmuAllProofs.files_events_from_player. Qed.
+Print Assumptions C03_all_events_from_player.
+(* ==== end of block (EmuAllDefs) ==== *)
